@@ -147,6 +147,44 @@ package keyed
 //@   assert unlock 1: others: forall key2: any {k.routines[key2]} :: key2 != key ==> in(k.routines, key2) == csold(in(k.routines, key2)) && k.routines[key2] == csold(k.routines[key2])
 //@   assert unlock 1: othertimers: forall rr: *runningRoutine {rr.deferRemove} :: rr != csold(k.routines[key]) ==> rr.deferRemove == csold(rr.deferRemove)
 //
+//@ func (*Keyed).SyncKeys
+//@   props C06 C07 C13
+//@   opt frame = skip
+//@   opt caller-owned = keys
+//@   opt own-slices = added removed
+//@   requires k != nil
+//@   loop 1 invariant inv: ginvs() && k.routines != nil && k.ctorCb != nil && routines != nil
+//@   loop 1 invariant ownlist: arr(added) == nil || (fresh(arr(added)) && allocated(arr(added)))
+//@   loop 1 invariant addedsound: forall j: int {added[j]} :: 0 <= j && j < len(added) ==> in(routines, added[j]) && (forall nk: any :: nk == added[j] ==> !csold(in(k.routines, nk)))
+//@   loop 1 invariant addedcomplete: forall key: any {routines[key]} :: in(routines, key) && !csold(in(k.routines, key)) ==> exists j: int :: 0 <= j && j < len(added) && added[j] == key
+//@   loop 1 invariant addeddistinct: forall i: int, j: int {added[i], added[j]} :: 0 <= i && i < j && j < len(added) ==> added[i] != added[j]
+//@   loop 1 invariant chain: forall key: any {k.routines[key]} :: in(k.routines, key) ==> k.routines[key].exitedCh == rlast(k.routines[key]) || (k.routines[key].exitedCh == nil && (rlast(k.routines[key]) == nil || closed(rlast(k.routines[key]))))
+//@   loop 1 invariant records: forall rr: *runningRoutine {rr.k} :: rr.k == k && rr.ctx != nil ==> chof(rr.ctx) != nil && ((!rr.exited ==> rr.exitedCh != nil && chof(rr.ctx) == rr.exitedCh) && (rr.exited ==> xdone(chof(rr.ctx))))
+//@   loop 1 invariant entries: forall key: any {k.routines[key]} :: in(k.routines, key) ==> k.routines[key] != nil && k.routines[key].k == k && k.routines[key].key == key
+//@   loop 1 invariant timers: forall rr: *runningRoutine {rr.k} :: rr.k == k && rr.deferRemove != nil ==> k.releaseDelay != 0
+//@   loop 1 invariant sub: forall key: any {routines[key]} :: in(routines, key) ==> routines[key] != nil && in(k.routines, key) && k.routines[key] == routines[key] && routines[key].deferRemove == nil
+//@   loop 1 invariant done: forall j: int {keys[j]} :: 0 <= j && j <= rangeindex ==> in(routines, keys[j])
+//@   loop 1 invariant grown: forall key: any {k.routines[key]} :: (csold(in(k.routines, key)) ==> in(k.routines, key) && k.routines[key] == csold(k.routines[key])) && (in(k.routines, key) ==> csold(in(k.routines, key)) || in(routines, key))
+//@   loop 2 invariant inv: ginvs() && k.routines != nil && k.ctorCb != nil && routines != nil
+//@   loop 2 invariant ownlist: (arr(removed) == nil || (fresh(arr(removed)) && allocated(arr(removed)))) && (arr(added) == nil || (fresh(arr(added)) && allocated(arr(added)))) && (arr(removed) == nil || arr(removed) != arr(added))
+//@   loop 2 invariant removedsound: forall j: int {removed[j]} :: 0 <= j && j < len(removed) ==> visited(removed[j]) && !in(routines, removed[j]) && (forall nk: any :: nk == removed[j] ==> csold(in(k.routines, nk)))
+//@   loop 2 invariant removedcomplete: forall key: any {routines[key]} :: visited(key) && !in(routines, key) ==> exists j: int :: 0 <= j && j < len(removed) && removed[j] == key
+//@   loop 2 invariant removeddistinct: forall i: int, j: int {removed[i], removed[j]} :: 0 <= i && i < j && j < len(removed) ==> removed[i] != removed[j]
+//@   loop 2 invariant addedkept: (forall j: int {added[j]} :: 0 <= j && j < len(added) ==> in(routines, added[j]) && (forall nk: any :: nk == added[j] ==> !csold(in(k.routines, nk)))) && (forall key: any {routines[key]} :: in(routines, key) && !csold(in(k.routines, key)) ==> exists j: int :: 0 <= j && j < len(added) && added[j] == key)
+//@   loop 2 invariant chain: forall key: any {k.routines[key]} :: in(k.routines, key) ==> k.routines[key].exitedCh == rlast(k.routines[key]) || (k.routines[key].exitedCh == nil && (rlast(k.routines[key]) == nil || closed(rlast(k.routines[key]))))
+//@   loop 2 invariant records: forall rr: *runningRoutine {rr.k} :: rr.k == k && rr.ctx != nil ==> chof(rr.ctx) != nil && ((!rr.exited ==> rr.exitedCh != nil && chof(rr.ctx) == rr.exitedCh) && (rr.exited ==> xdone(chof(rr.ctx))))
+//@   loop 2 invariant entries: forall key: any {k.routines[key]} :: in(k.routines, key) ==> k.routines[key] != nil && k.routines[key].k == k && k.routines[key].key == key
+//@   loop 2 invariant timers: forall rr: *runningRoutine {rr.k} :: rr.k == k && rr.deferRemove != nil ==> k.releaseDelay != 0
+//@   loop 2 invariant sub: forall key: any {routines[key]} :: in(routines, key) ==> routines[key] != nil && in(k.routines, key) && k.routines[key] == routines[key] && routines[key].deferRemove == nil
+//@   loop 2 invariant done: forall j: int {keys[j]} :: 0 <= j && j < len(keys) ==> in(routines, keys[j])
+//@   loop 2 invariant handled: forall key: any {k.routines[key]} :: in(k.routines, key) && visited(key) && !in(routines, key) ==> k.routines[key].deferRemove != nil && k.releaseDelay != 0
+//@   loop 2 invariant shrunk: forall key: any {k.routines[key]} :: in(k.routines, key) ==> csold(in(k.routines, key)) || in(routines, key)
+//@   assert unlock 1: addedlist: (forall j: int {added[j]} :: 0 <= j && j < len(added) ==> in(routines, added[j]) && (forall nk: any :: nk == added[j] ==> !csold(in(k.routines, nk)))) && (forall key: any {routines[key]} :: in(routines, key) && !csold(in(k.routines, key)) ==> exists j: int :: 0 <= j && j < len(added) && added[j] == key)
+//@   assert unlock 1: removedlist: (forall j: int {removed[j]} :: 0 <= j && j < len(removed) ==> !in(routines, removed[j]) && (forall nk: any :: nk == removed[j] ==> csold(in(k.routines, nk)))) && (forall key: any {routines[key]} :: csold(in(k.routines, key)) && !in(routines, key) ==> exists j: int :: 0 <= j && j < len(removed) && removed[j] == key)
+//@   assert unlock 1: requested: forall j: int {keys[j]} :: 0 <= j && j < len(keys) ==> in(k.routines, keys[j]) && k.routines[keys[j]].deferRemove == nil
+//@   assert unlock 1: unrequested: forall key: any {k.routines[key]} :: in(k.routines, key) && !in(routines, key) ==> k.routines[key].deferRemove != nil && k.releaseDelay != 0
+//@   assert unlock 1: nonew: forall key: any {k.routines[key]} :: in(k.routines, key) ==> csold(in(k.routines, key)) || in(routines, key)
+//
 //@ func (*Keyed).GetKey
 //@   props C06 C13
 //@   opt frame = skip
